@@ -1224,6 +1224,13 @@ func ruleM2(w *world.World, r *report.RuleResult) {
 		m := evs[fn]
 		name := world.FuncName(fn)
 		if len(m.updates) > 0 {
+			// path form: on every path to the entry write on which the key already existed, the old
+			// entry's size has been subtracted
+			if bad := replaceWithoutSubtract(fn, m); bad != nil {
+				r.Fail(name+"|replace-subtracts-on-every-path", w.InstrPos(bad), name+" can overwrite an existing entry on a path that did not subtract the size of the entry being replaced (the subtraction is conditional on something other than the entry's existence, e.g. on its deadline): the counter keeps the old entry's size for ever")
+			} else {
+				r.OK(name+"|replace-subtracts-on-every-path", w.InstrPos(m.updates[0]), "whenever the key already exists, the replaced entry's size is subtracted before the new entry is written")
+			}
 			key := name + "|add-or-replace"
 			switch {
 			case !hasVia(fn, false):
@@ -1294,4 +1301,74 @@ func ruleNM(w *world.World, r *report.RuleResult) {
 			}
 		}
 	}
+}
+
+// replaceWithoutSubtract: an entry write reachable over the "key exists" edge of a store lookup
+// without passing a subtraction from the memory counter. Returns the offending write or nil.
+func replaceWithoutSubtract(fn *ssa.Function, m *memFn) ssa.Instruction {
+	const ACC world.Facts = 1 // accounted: key absent, or old size subtracted
+	subs := map[ssa.Instruction]bool{}
+	for _, s := range m.subs {
+		subs[s] = true
+	}
+	isExistsTest := func(cond ssa.Value) bool {
+		ex, ok := cond.(*ssa.Extract)
+		if !ok || ex.Index != 1 {
+			return false
+		}
+		return isStoreEntryRead(ex.Tuple)
+	}
+	hasTest := false
+	eg := func(b *ssa.BasicBlock, si int) world.Facts {
+		iff := world.IfOf(b)
+		if iff == nil {
+			return 0
+		}
+		c := iff.Cond
+		neg := false
+		if u, ok := c.(*ssa.UnOp); ok && u.Op.String() == "!" {
+			c, neg = u.X, true
+		}
+		if isExistsTest(c) {
+			hasTest = true
+			if (si == 1) != neg { // key absent edge
+				return ACC
+			}
+		}
+		// the size of the old entry could not be computed (GetMem error): it was never accounted
+		if world.ErrNilEdge(b, func(v ssa.Value) bool {
+			call, ok := v.(*ssa.Call)
+			if !ok {
+				return false
+			}
+			f := call.Call.StaticCallee()
+			return f != nil && f.Name() == "GetMem" && len(call.Call.Args) > 0 && fromStoreEntry(call.Call.Args[0])
+		}) == 1-si {
+			return ACC
+		}
+		return 0
+	}
+	gen := func(in ssa.Instruction) world.Facts {
+		if subs[in] {
+			return ACC
+		}
+		return 0
+	}
+	// the fact must not survive into the next loop iteration: kill at the exists test's lookup
+	kill := func(in ssa.Instruction) world.Facts {
+		if v, ok := in.(ssa.Value); ok && isStoreEntryRead(v) {
+			return ACC
+		}
+		return 0
+	}
+	must := world.Must(fn, eg, gen, kill)
+	if !hasTest {
+		return nil
+	}
+	for _, u := range m.updates {
+		if world.FactsAt(must, u, gen, kill)&ACC == 0 {
+			return u
+		}
+	}
+	return nil
 }
